@@ -13,8 +13,13 @@ operation is the C11 model of that class (`classOps E .SolverCompositeChild`, ru
 of the `Ops` table is here too: `combine`, `split`, `update` (ConstrainedFrontend / ModelCacheMixin) and
 `check_satisfiability` (SatCacheMixin, FullFrontend).
 
-Conventions.  A child is referred to by its index in `World.fes` (object identity).  Python sets of children / names are lists in
-discovery order (any order is a behaviour of the code: CPython orders those sets by address / string hash).  The weak sets
+Conventions.  A child is referred to by its index in `World.fes` (object identity = order of creation: every `blank_copy()` of a
+child appends one).  Python sets of children / names are lists in discovery order.  Where the code ITERATES a set and the order
+is visible afterwards — the groups `_split_constraints` returns (a set of frozensets), `list(solvers)` in `_solver_for_names`
+(`solvers[0]` is the one whose `combine` runs), the sets `_models` that `itertools.product` walks in `combine`, the loop over
+`_unchecked_solvers` (it stops at the first unsatisfiable child) — CPython's order (addresses, string hashes) is an INPUT: the
+model asks the oracle for it (`orderOracle`, through `Env.pick`, the channel of the set-iteration dependent choices of C11; one
+event per iteration) and accepts whatever it is told (`reorderBy` yields a permutation of the set for every answer).  The weak sets
 `_unchecked_solvers` / `_owned_solvers` are lists: a child nobody refers to any more stays listed, which is unobservable (the
 loops over `_unchecked_solvers` skip children that `_solvers` no longer points to).  `SolverComposite` is this class under
 eight mixins and `CompositedCacheMixin` (a cache of merged solvers keyed by the name set); those are NOT in this file.
@@ -59,6 +64,42 @@ instance : Monad CM := { pure := CM.pure, bind := CM.bind }
 end CM
 
 def childOps (E : Env) : Ops := classOps E .SolverCompositeChild
+
+/-! ### iteration order of Python sets -/
+
+/-- the elements of `l` in the order the key list `p` names them (`mt x k`: key `k` names `x`); elements no key names follow in
+the order of `l`, keys naming nothing are ignored: for EVERY `p` the result has exactly the elements of `l` -/
+def reorderBy [BEq α] (mt : α → List Nat → Bool) (p : List (List Nat)) (l : List α) : List α :=
+  let front := p.foldl (fun acc k =>
+    match l.find? (fun x => mt x k && !acc.contains x) with
+    | some x => acc ++ [x]
+    | none => acc) []
+  front ++ l.filter fun x => !front.contains x
+
+/-- the order in which CPython iterates the set `l` (shown to the oracle as the keys `keys`): one event -/
+def orderOracle [BEq α] (E : Env) (mt : α → List Nat → Bool) (keys : List (List Nat)) (l : List α) : CM (List α) := fun s =>
+  (.ok (reorderBy mt (E.pick keys keys.length s.w.tick) l), { s with w := { s.w with tick := s.w.tick + 1 } })
+
+/-- a set of children -/
+def orderChildren (E : Env) (l : List Nat) : CM (List Nat) :=
+  orderOracle E (fun j k => k == [j]) (l.map fun j => [j]) l
+
+/-- `min(iter(s.variables))` -/
+def minVar : List Var → Var
+  | [] => 0
+  | v :: rest => rest.foldl Nat.min v
+
+/-- the groups of `_split_constraints` (a list made from a set of pairs of frozensets); a group is named by its least variable.
+Nothing is iterated when there are fewer than two. -/
+def orderGroups (E : Env) (gs : List (List Var × List Nat)) : CM (List (List Var × List Nat)) :=
+  if gs.length < 2 then pure gs
+  else orderOracle E (fun g k => k == [minVar g.1]) (gs.map fun g => [minVar g.1]) gs
+
+/-- a set of cached models; a model is named by its items, sorted by variable -/
+def modelKey (m : PModel) : List Nat := m.flatMap fun kv => [kv.1, kv.2]
+
+def orderModels (E : Env) (ms : List PModel) : CM (List PModel) :=
+  orderOracle E (fun m k => k == modelKey m) (ms.map modelKey) ms
 
 def CSt.child (s : CSt) (j : Nat) : Frontend := s.w.fes.getD j {}
 
@@ -108,8 +149,10 @@ def productOf : List (List PModel) → List (List PModel)
 
 /-- `self.combine(others)`: ConstrainedFrontend.combine (a blank copy to which the constraints of everybody are added through the
 public `add`), then ModelCacheMixin.combine (when everybody has models and the variable sets are disjoint: the first
-`len(self._models)` combinations of one model each).  Returns the new child. -/
-def childCombine (E : Env) (self : Nat) (others : List Nat) : CM Nat := fun s =>
+`len(self._models)` combinations of one model each, `selfModels` / `otherModels` being the sets `_models` in the order
+`itertools.product` walks them).  Returns the new child. -/
+def childCombineWith (E : Env) (self : Nat) (others : List Nat) (selfModels : List PModel) (otherModels : List (List PModel)) :
+    CM Nat := fun s =>
   let k := s.w.fes.length
   let w0 : World := { s.w with fes := s.w.fes ++ [childBlank E (s.child self)] }
   -- combined.add(self.constraints); for o in others: combined.add(o.constraints)
@@ -130,17 +173,29 @@ def childCombine (E : Env) (self : Nat) (others : List Nat) : CM Nat := fun s =>
       let allVars := fo.foldl (fun acc o => listUnion acc o.variables) fs.variables
       if varsCount != allVars.length then (.ok k, { s with w := w1 })
       else
-        let combos := ((productOf (fs.models :: fo.map (·.models))).take fs.models.length).map PModel.combine
+        let combos := ((productOf (selfModels :: otherModels)).take fs.models.length).map PModel.combine
         let fk := w1.fes.getD k {}
         let fk := { fk with models := combos.foldl listInsert fk.models }
         (.ok k, { s with w := { w1 with fes := w1.fes.set k fk } })
 
-/-- `self.split()`: ConstrainedFrontend.split (one blank copy per group of `_split_constraints(self.constraints)`, the constraints
-without variables forming a group of their own), then ModelCacheMixin.split (every part gets the models of the whole, filtered to
-its variables).  Returns the new children. -/
-def childSplit (E : Env) (self : Nat) : CM (List Nat) := fun s =>
+/-- the order of the model sets of the children in `l` (one event each) -/
+def orderModelSets (E : Env) : List Nat → CM (List (List PModel))
+  | [] => pure []
+  | o :: rest => do
+    let s ← CM.get
+    let ms ← orderModels E (s.child o).models
+    let mss ← orderModelSets E rest
+    pure (ms :: mss)
+
+def childCombine (E : Env) (self : Nat) (others : List Nat) : CM Nat := do
+  let mss ← orderModelSets E (self :: others)
+  childCombineWith E self others (mss.headD []) (mss.drop 1)
+
+/-- `self.split()`: ConstrainedFrontend.split (one blank copy per group of `_split_constraints(self.constraints)`, in the order
+of that list, the constraints without variables forming a last group of their own), then ModelCacheMixin.split (every part gets
+the models of the whole, filtered to its variables).  Returns the new children. -/
+def childSplitWith (E : Env) (self : Nat) (groups : List (List Var × List Nat)) (concrete : List Nat) : CM (List Nat) := fun s =>
   let fs := s.child self
-  let (groups, concrete) := splitConstraints (fs.constraints.map (·.vars))
   let lists := (groups.map fun g => g.2.map fun i => fs.constraints.getD i default) ++
     (if concrete.isEmpty then [] else [concrete.map fun i => fs.constraints.getD i default])
   let rec go : List (List Con) → World → List Nat → Except Err (List Nat) × World
@@ -156,6 +211,12 @@ def childSplit (E : Env) (self : Nat) : CM (List Nat) := fun s =>
       | (.error e, w') => (.error e, w')
   match go lists s.w [] with
   | (r, w') => (r, { s with w := w' })
+
+def childSplit (E : Env) (self : Nat) : CM (List Nat) := do
+  let s ← CM.get
+  let split := splitConstraints ((s.child self).constraints.map (·.vars))
+  let groups ← orderGroups E split.1
+  childSplitWith E self groups split.2
 
 def modelKeys (m : PModel) : List Var := m.map (·.1)
 
@@ -217,7 +278,11 @@ def solverForNames (E : Env) (names : List Var) : CM Nat := do
   match closureLoop s fuel names names [] with
   | [] => blankChild E
   | [j] => pure j
-  | j :: rest => childCombine E j rest
+  | l => do
+    -- `solvers = list(solvers)`: the order of a set of children
+    match ← orderChildren E l with
+    | [] => blankChild E
+    | j :: rest => childCombine E j rest
 
 /-- `_store_child(ns, invalidate_cache)` -/
 def storeChild (j : Nat) (invalidate : Bool := true) : CM Unit := fun s =>
@@ -233,11 +298,6 @@ def claim (E : Env) (j : Nat) : CM Nat := do
     let k ← childBranch E j
     CM.modifyC fun c => { c with owned := listInsert c.owned k }
     pure k
-
-/-- `min(iter(s.variables))` -/
-def minVar : List Var → Var
-  | [] => 0
-  | v :: rest => rest.foldl Nat.min v
 
 /-- `_reabsorb_solver(s)`; a `KeyError` outside the `try` is reported as `Err.value` -/
 def reabsorb (E : Env) (j : Nat) : CM Unit := do
@@ -311,7 +371,8 @@ def ownAdd (childAdded : List Con) : CM (List Con) := fun s =>
 def compAdd (E : Env) (cs : List Con) : CM (List Con) := do
   -- the constraints of the alphabets are not conjunctions: `splitted` = `constraints`
   let split := splitConstraints (cs.map (·.vars))
-  let childAdded ← addGroups E cs split.1 []
+  let groups ← orderGroups E split.1
+  let childAdded ← addGroups E cs groups []
   -- the `{"CONCRETE"}` group comes last in the list `_split_constraints` returns
   if split.2.isEmpty then ownAdd childAdded
   else
@@ -328,7 +389,7 @@ def compAdd (E : Env) (cs : List Con) : CM (List Con) := do
 
 /-! ### solving -/
 
-/-- the loop over `_unchecked_solvers` of `check_satisfiability`; `skip` = the variables of the solver the extra constraints went to -/
+/-- the loop over `_unchecked_solvers` of `check_satisfiability` (in the order the set is iterated); `skip` = the variables of the solver the extra constraints went to -/
 def checkLoop (E : Env) (skip : Option (List Var)) : List Nat → CM Bool
   | [] => pure true
   | j :: rest => do
@@ -345,7 +406,8 @@ def compSatisfiable (E : Env) (extra : List Con) : CM Bool := do
   let s ← CM.get
   if s.c.unsat then pure false
   else if extra.isEmpty then do
-    let ok ← checkLoop E none s.c.unchecked
+    let order ← orderChildren E s.c.unchecked
+    let ok ← checkLoop E none order
     if !ok then pure false
     else do
       CM.modifyC fun c => { c with unchecked := [] }
@@ -357,7 +419,8 @@ def compSatisfiable (E : Env) (extra : List Con) : CM Bool := do
     else do
       reabsorb E es
       let s ← CM.get
-      let ok ← checkLoop E (some (s.child es).variables) s.c.unchecked
+      let order ← orderChildren E s.c.unchecked
+      let ok ← checkLoop E (some (s.child es).variables) order
       if !ok then pure false
       else do
         CM.modifyC fun c => { c with unchecked := [] }
